@@ -63,6 +63,16 @@ inductive Rd
   | eof
   deriving DecidableEq, Repr, Inhabited
 
+/-- a non-token result, remembered by the `stickyReader` -/
+inductive Fail
+  | err (e : Err)
+  | eof
+  deriving DecidableEq, Repr, Inhabited
+
+def Fail.rd : Fail → Rd
+  | .err e => .err e
+  | .eof => .eof
+
 /-- condition carried by a stream error whose start tag has just been read: the local name of
 the first child element (`stream.Error.UnmarshalXML`); `none` when the error element is not
 closed in the remaining input (the decoder then reports a syntax error) -/
@@ -113,13 +123,13 @@ structure RS where
   inp : List Tok
   dIn : Nat
   dOut : Nat
-  sticky : Option Rd
+  sticky : Option Fail
   deriving Repr
 
 /-- one `Token()` call on `stickyReader{intstream.Reader(lockReadCloser{s.in.d})}` -/
 def RS.next (s : RS) : Rd × RS :=
   match s.sticky with
-  | some r => (r, s)
+  | some f => (f.rd, s)
   | none =>
     match s.inp with
     | [] => (.err .decoder, { s with sticky := some (.err .decoder) })
@@ -128,8 +138,10 @@ def RS.next (s : RS) : Rd × RS :=
       | (dIn', .tok t1) =>
         (match verdict s.dOut t1 rest with
          | (dOut', .tok t2) => (.tok t2, { inp := rest, dIn := dIn', dOut := dOut', sticky := none })
-         | (dOut', r) => (r, { inp := rest, dIn := dIn', dOut := dOut', sticky := some r }))
-      | (dIn', r) => (r, { inp := rest, dIn := dIn', dOut := s.dOut, sticky := some r })
+         | (dOut', .err e) => (.err e, { inp := rest, dIn := dIn', dOut := dOut', sticky := some (.err e) })
+         | (dOut', .eof) => (.eof, { inp := rest, dIn := dIn', dOut := dOut', sticky := some .eof }))
+      | (dIn', .err e) => (.err e, { inp := rest, dIn := dIn', dOut := s.dOut, sticky := some (.err e) })
+      | (dIn', .eof) => (.eof, { inp := rest, dIn := dIn', dOut := s.dOut, sticky := some .eof })
 
 /-- what a handler observes for one `Token()` call -/
 inductive Obs
@@ -321,34 +333,47 @@ inductive Step
   | stop (inv : Option Inv) (written : List Tok) (res : Stop)
   deriving Repr
 
+/-- the tokens all `write` steps of a program pass to the encoder, in order -/
+def writesOf : List Op → List Tok
+  | [] => []
+  | .read :: ops => writesOf ops
+  | .write ts :: ops => ts ++ writesOf ops
+
+/-- what the session adds after the handler returned nil: the automatic error for an
+unanswered get/set IQ (`none` = the from address does not parse), nothing otherwise.
+`as` are the attributes after the from normalisation, `wrote` the reply detector's flag. -/
+def autoReply (cfg : Cfg) (n : Name) (as : List Attr) (wrote : Bool) : Option (List Tok) :=
+  if isIq n && isRequestTyp (getTyp as) && !wrote then
+    (replyTo cfg as).map (defaultReply (getId as))
+  else some []
+
+/-- `handleInputStream` after the start tag `n as` has been read (`rs1` = reading state after it) -/
+def handleElem (cfg : Cfg) (n : Name) (as : List Attr) (rs1 : RS) (prog : Prog) : Step :=
+  let as' := blankFrom cfg n as
+  let id := getId as'
+  let (view, es1, ws1) := runOps id prog.ops { rs := rs1, cnt := 0, fin := false } WS.init []
+  let inv : Inv := { start := .start n as', view := view }
+  match prog.ret with
+  | .fail => .stop (some inv) ws1.out (.error .handler)
+  | .eof => .stop (some inv) ws1.out (.error .handler)
+  | .readErr =>
+    (match es1.rs.sticky with
+     | some (.err e) => .stop (some inv) ws1.out (.error e)
+     | _ => .stop (some inv) ws1.out (.error .handler))
+  | .ok =>
+    match autoReply cfg n as' ws1.wrote with
+    | none => .stop (some inv) ws1.out (.error .badJid)
+    | some d =>
+      match discard es1 with
+      | (none, es2) => .next (some inv) (ws1.out ++ d) es2.rs
+      | (some e, _) => .stop (some inv) (ws1.out ++ d) (.error e)
+
 def handleInputStream (cfg : Cfg) (rs : RS) (prog : Prog) : Step :=
   match ({ rs with dOut := 0, sticky := none } : RS).next with
   | (.eof, _) => .stop none [] .clean
   | (.err e, _) => .stop none [] (.error e)
   | (.tok (.chars _), rs1) => .next none [] rs1
-  | (.tok (.start n as), rs1) =>
-    let as' := blankFrom cfg n as
-    let id := getId as'
-    let typ := getTyp as'
-    let (view, es1, ws1) := runOps id prog.ops { rs := rs1, cnt := 0, fin := false } WS.init []
-    let inv : Inv := { start := .start n as', view := view }
-    match prog.ret with
-    | .fail => .stop (some inv) ws1.out (.error .handler)
-    | .eof => .stop (some inv) ws1.out (.error .handler)
-    | .readErr =>
-      (match es1.rs.sticky with
-       | some (.err e) => .stop (some inv) ws1.out (.error e)
-       | _ => .stop (some inv) ws1.out (.error .handler))
-    | .ok =>
-      let needs := isIq n && isRequestTyp typ && !ws1.wrote
-      let dflt : Option (List Tok) :=
-        if needs then (replyTo cfg as').map (defaultReply id) else some []
-      match dflt with
-      | none => .stop (some inv) ws1.out (.error .badJid)
-      | some d =>
-        match discard es1 with
-        | (none, es2) => .next (some inv) (ws1.out ++ d) es2.rs
-        | (some e, _) => .stop (some inv) (ws1.out ++ d) (.error e)
+  | (.tok (.start n as), rs1) => handleElem cfg n as rs1 prog
   | (.tok _, _) => .stop none [] (.error .badState)
 
 /-! ### the serve loop -/
